@@ -22,8 +22,11 @@ def run_tree(built, box, files, config_yaml, do_check=True, do_edit=True, trace=
 
     Returns Outcome with per-file reported offsets (from check) and tokens (from edit).
     """
-    for rel, data in files.items():
-        box.write(rel, data)
+    # (the order of creation decides the walk order on file systems that list entries by age - see fault.Project.materialise)
+    order = sorted(files)
+    core.rng_for("creation-order", len(order), sum(len(d) for d in files.values()), order[:3]).shuffle(order)
+    for rel in order:
+        box.write(rel, files[rel])
     cfg = box.write(config_rel, config_yaml)
     lockp = os.path.join(os.path.dirname(cfg), "Breadlog.lock")
     if lock is not None:
